@@ -110,10 +110,11 @@ pub fn run_c12(cfg: &Cfg) -> Report {
          checksum checked; distinct = distinct (shape, history) pairs",
     );
     // SLIT exhaustive small: enumerate by index
-    let vals = [0u8, 10, 0xFF];
+    // 10 is the default; 138 differs from it by exactly 128 (twice the delta vanishes mod 256)
+    let vals = [0u8, 10, 138, 0xFF];
     let max_n = if thorough { 6 } else { 5 };
     for n in 1..=max_n {
-        let ops = (n * n * 3) as u64;
+        let ops = (n * n * 4) as u64;
         let depth = if thorough || n <= 3 { 3 } else { 2 };
         let total: u64 = (1..=depth).map(|d| ops.pow(d)).sum();
         let mut r = par_cases(cfg, &format!("slit.exhaustive.n{}", n), total, |cx| {
@@ -128,8 +129,8 @@ pub fn run_c12(cfg: &Cfg) -> Report {
             for _ in 0..len {
                 let o = (idx % ops) as usize;
                 idx /= ops;
-                let cell = o / 3;
-                hist.push((cell / n, cell % n, vals[o % 3]));
+                let cell = o / 4;
+                hist.push((cell / n, cell % n, vals[o % 4]));
             }
             if slit_history(cx, n, &hist) {
                 cx.rep.distinct(&(n, hist.clone()));
@@ -400,7 +401,7 @@ pub fn run_c13(cfg: &Cfg) -> Report {
         Len,
     }
     let offs = [Off::Abs(0), Off::Abs(3), Off::Abs(4), Off::Abs(7), Off::Abs(8), Off::Abs(9), Off::Abs(10), Off::Abs(35), Off::LastValid, Off::LastValidPlus1, Off::Len];
-    let n_alpha: u64 = 5 * offs.len() as u64 + 12;
+    let n_alpha: u64 = 5 * offs.len() as u64 + 12 + 5;
     let mk = move |code: u64, cur_len: usize| -> SdtOp {
         if code < 5 * offs.len() as u64 {
             let w = [1usize, 2, 4, 8, 3][(code / offs.len() as u64) as usize];
@@ -430,7 +431,9 @@ pub fn run_c13(cfg: &Cfg) -> Report {
                 8 => SdtOp::SinkDword(0x8765_4321),
                 9 => SdtOp::SinkQword(u64::MAX),
                 10 => SdtOp::SinkVec(vec![9, 8, 7]),
-                _ => SdtOp::WriteBytes(cur_len, vec![]), // empty write exactly at the end: in range
+                11 => SdtOp::WriteBytes(cur_len, vec![]), // empty write exactly at the end: in range
+                // the caller writes into the Length field the value a following append will make true
+                k => SdtOp::WriteU32(4, (cur_len + [1usize, 2, 4, 8, 5][(k - 12) as usize]) as u32),
             }
         }
     };
@@ -494,7 +497,14 @@ pub fn run_c13(cfg: &Cfg) -> Report {
                 3 => SdtOp::AppendU64(r.u64b()),
                 4 => {
                     let l = if r.chance(1, 8) { 0 } else { r.usize_below(40) };
-                    SdtOp::AppendSlice(r.byte_vec(l))
+                    if r.chance(1, 40) && !cx.cfg.mini {
+                        // a large slice of high-valued bytes (word-at-a-time summing must not lose carries)
+                        let n = 2048 + r.usize_below(9000);
+                        let fill = *r.pick(&[0xFFu8, 0xFE, 0x80, 0xF0]);
+                        SdtOp::AppendSlice(if r.bool() { vec![fill; n] } else { r.byte_vec(n).into_iter().map(|b| b | 0x80).collect() })
+                    } else {
+                        SdtOp::AppendSlice(r.byte_vec(l))
+                    }
                 }
                 5 => SdtOp::AppendArr3(r.bytes()),
                 6 => SdtOp::SinkByte(r.u8b()),
@@ -518,6 +528,12 @@ pub fn run_c13(cfg: &Cfg) -> Report {
                     // offsets: header, checksum byte, length field, last valid, one past, far beyond
                     let ro = r.usize_below(cur + 4);
                     let off = *r.pick(&[0usize, 2, 4, 6, 8, 9, 10, 35, cur.saturating_sub(w), cur.saturating_sub(w) + 1, cur, ro, usize::MAX - 1, usize::MAX]);
+                    if k == 14 && r.chance(1, 3) {
+                        // Length field pre-set to what one of the next appends would make it
+                        let ahead = *r.pick(&[1usize, 2, 3, 4, 8]);
+                        ops.push(SdtOp::WriteU32(4, (cur + ahead) as u32));
+                        continue;
+                    }
                     match k {
                         12 => SdtOp::WriteU8(off, r.u8b()),
                         13 => SdtOp::WriteU16(off, r.u16b()),
